@@ -93,6 +93,19 @@ def world(native, fname, build_code=None):
 
 def run(native, which, build_code=False):
     def call(it, fn, fname):
+        # a changed tree may open files by other means than the two openers stubbed here (interpreted or native, the call is real):
+        # run inside a scratch directory that is removed afterwards
+        import tempfile
+        import shutil
+        cwd, scratch = os.getcwd(), tempfile.mkdtemp(prefix='pyvc_c12_')
+        os.chdir(scratch)
+        try:
+            return call_(it, fn, fname)
+        finally:
+            os.chdir(cwd)
+            shutil.rmtree(scratch, ignore_errors=True)
+
+    def call_(it, fn, fname):
         import builtins
         import jsonpickle
         from xlcalculator import model as Mo
